@@ -4,30 +4,72 @@
    counter, kernel) stays equal, because under a non-recursive watch a move never re-keys anything. *)
 Require Import WD.Base.Prelude WD.Base.BStr WD.Model.SubEvents WD.Model.Emitter WD.Model.MaskTable
                WD.Model.Fs WD.Model.Reader WD.Model.DelayQueue WD.Model.Grouping WD.Model.Pipeline WD.Model.Contract.
-Require Import WD.Gen.MaskTableGen WD.Proofs.MaskTableProofs WD.Proofs.C11Proofs WD.Proofs.ContractProofs
-               WD.Proofs.CoverProofs
+Require Import WD.Gen.MaskTableGen WD.Proofs.MaskTableProofs WD.Proofs.C11Proofs WD.Proofs.ReaderFixProofs
+               WD.Proofs.ContractProofs
                WD.Proofs.C11KernelProofs WD.Proofs.C11ReaderProofs WD.Proofs.C11TwinProofs WD.Proofs.C11GroupProofs
-               WD.Proofs.C11SeqProofs.
+               WD.Proofs.C11SeqProofs WD.Proofs.C11InertProofs WD.Proofs.C11LagProofs.
 
 (* equal up to _moved_from_events *)
-Definition req (r r0 : rstate) : Prop := wfp r = wfp r0 /\ pfw r = pfw r0 /\ calls r = calls r0.
+Definition req (r r0 : rstate) : Prop := wfp r = wfp r0 /\ pfw r = pfw r0 /\ calls r = calls r0 /\ pend r = pend r0.
 
-(* a non-recursive watch: only the root is (or was) watched; remembered move sources are not the root *)
+(* a non-recursive watch: only the root is (or was) watched; remembered move sources are not the root; no move-out
+   candidate is ever remembered (that needs a recursive watch) *)
 Definition flat_inv (root : bytes) (r : rstate) : Prop :=
   (forall p wd, alookup beqb p (wfp r) = Some wd -> p = root) /\
   (forall wd p, alookup N.eqb wd (pfw r) = Some p -> p = root) /\
-  (forall c p, alookup N.eqb c (mvf r) = Some p -> beqb p root = false).
+  (forall c p, alookup N.eqb c (mvf r) = Some p -> beqb p root = false) /\
+  pend r = None.
+
+(* association lists with a decidable key *)
+Section AL.
+  Context {K V : Type} (keq : K -> K -> bool).
+  Hypothesis keq_eq : forall a b, keq a b = true <-> a = b.
+
+  Lemma al_refl a : keq a a = true. Proof. now apply keq_eq. Qed.
+  Lemma al_neq a b : a <> b -> keq a b = false.
+  Proof. intros H. destruct (keq a b) eqn:E; [apply keq_eq in E; contradiction | reflexivity]. Qed.
+
+  Lemma al_set_eq k (v : V) m : alookup keq k (aset keq k v m) = Some v.
+  Proof.
+    induction m as [|[k' v'] m IH]; simpl; [now rewrite al_refl|].
+    destruct (keq k k') eqn:E; simpl; rewrite E; [reflexivity | exact IH].
+  Qed.
+
+  Lemma al_set_neq k k' (v : V) m : k' <> k -> alookup keq k' (aset keq k v m) = alookup keq k' m.
+  Proof.
+    intros Hne. induction m as [|[k2 v2] m IH]; simpl; [now rewrite al_neq|].
+    destruct (keq k k2) eqn:E; simpl.
+    - apply keq_eq in E. subst k2. now rewrite al_neq.
+    - destruct (keq k' k2); [reflexivity | exact IH].
+  Qed.
+
+  Lemma al_rem_eq k (m : list (K * V)) : alookup keq k (aremove keq k m) = None.
+  Proof.
+    induction m as [|[k' v'] m IH]; simpl; [reflexivity|].
+    destruct (keq k k') eqn:E; simpl; [exact IH | rewrite E; exact IH].
+  Qed.
+
+  Lemma al_rem_neq k k' (m : list (K * V)) : k' <> k -> alookup keq k' (aremove keq k m) = alookup keq k' m.
+  Proof.
+    intros Hne. induction m as [|[k2 v2] m IH]; simpl; [reflexivity|].
+    destruct (keq k k2) eqn:E; simpl.
+    - apply keq_eq in E. subst k2. now rewrite al_neq.
+    - destruct (keq k' k2); [reflexivity | exact IH].
+  Qed.
+End AL.
+
+Lemma Neqb_iff a b : N.eqb a b = true <-> a = b. Proof. apply N.eqb_eq. Qed.
 
 Lemma wrem_sub p q (m : list (bytes * N)) v : alookup beqb p (aremove beqb q m) = Some v -> alookup beqb p m = Some v.
 Proof.
-  destruct (bytes_eq_dec p q) as [->|Hne]; [rewrite wrem_eq; discriminate|].
-  now rewrite (wrem_neq q p m Hne).
+  destruct (bytes_eq_dec p q) as [->|Hne]; [rewrite (al_rem_eq beqb); discriminate|].
+  now rewrite (al_rem_neq beqb beqb_eq q p m Hne).
 Qed.
 
 Lemma prem_sub a b (m : list (N * bytes)) v : alookup N.eqb a (aremove N.eqb b m) = Some v -> alookup N.eqb a m = Some v.
 Proof.
-  destruct (N.eq_dec a b) as [->|Hne]; [rewrite prem_eq; discriminate|].
-  now rewrite (prem_neq b a m Hne).
+  destruct (N.eq_dec a b) as [->|Hne]; [rewrite (al_rem_eq N.eqb); discriminate|].
+  now rewrite (al_rem_neq N.eqb Neqb_iff b a m Hne).
 Qed.
 
 Section Flat.
@@ -37,10 +79,11 @@ Section Flat.
   Hypothesis Hroot1 : root <> [].
   Hypothesis Hroot2 : last_is_sep root = false.
 
-  Lemma read_one_nr t r k acc e :
+  (* nothing is ever pending under a non-recursive watch: one iteration is the loop body, without the recursive part *)
+  Lemma read_one_nr t r k acc e : pend r = None ->
     read_one C t (r, k, acc) e =
     match alookup N.eqb (k_wd e) (pfw r) with
-    | None => Crash SITE_PATH_FOR_WD
+    | None => if c_fix_moveout C then Done (r, k, acc) else Crash SITE_PATH_FOR_WD
     | Some wdp =>
       let '(r1, k1, ev1) := ro_move C t r k e wdp in
       match ro_ignored C r1 e with
@@ -49,7 +92,8 @@ Section Flat.
       end
     end.
   Proof.
-    rewrite read_one_factored. destruct (alookup N.eqb (k_wd e) (pfw r)); [|reflexivity].
+    intros Hp. rewrite (read_one_body_eq C t r k acc e Hp), read_one_body_factored.
+    destruct (alookup N.eqb (k_wd e) (pfw r)); [|reflexivity].
     destruct (ro_move C t r k e b) as [[r1 k1] ev1]. destruct (ro_ignored C r1 e); [|reflexivity].
     rewrite Hnr. reflexivity.
   Qed.
@@ -62,47 +106,51 @@ Section Flat.
     | _, _ => False
     end.
   Proof.
-    intros [E1 [E2 E3]] [I1 [I2 I3]]. unfold ro_ignored. rewrite <- E1, <- E2, <- E3.
+    intros [E1 [E2 [E3 E4]]] [I1 [I2 [I3 I4]]]. unfold ro_ignored. rewrite <- E1, <- E2, <- E3, <- E4.
     destruct (Emitter.is_ignored (k_mask e)); [|repeat split; assumption].
     destruct (alookup N.eqb (k_wd e) (pfw r)) as [path|]; [|reflexivity].
-    cbn [wfp pfw mvf calls].
+    cbn [wfp pfw mvf calls pend].
     assert (J2 : forall wd p, alookup N.eqb wd (aremove N.eqb (k_wd e) (pfw r)) = Some p -> p = root).
     { intros wd p H. apply (I2 wd p). eapply prem_sub. exact H. }
     destruct (alookup beqb path (wfp r)) as [w|].
     - destruct (N.eqb w (k_wd e)); (split; [repeat split; reflexivity|]); (split; [|split; reflexivity]);
-        cbn [wfp pfw mvf]; (split; [|split; [exact J2 | exact I3]]).
+        cbn [wfp pfw mvf pend]; (split; [|split; [exact J2 | split; [exact I3 | exact I4]]]).
       + intros p wd H. apply (I1 p wd). eapply wrem_sub. exact H.
       + exact I1.
     - destruct (c_fix_ignored C); [|reflexivity].
-      split; [repeat split; reflexivity|]. split; [|split; reflexivity]. cbn [wfp pfw mvf].
-      split; [exact I1 | split; [exact J2 | exact I3]].
+      split; [repeat split; reflexivity|]. split; [|split; reflexivity]. cbn [wfp pfw mvf pend].
+      split; [exact I1 | split; [exact J2 | split; [exact I3 | exact I4]]].
   Qed.
 
-  (* an event that is not half of a move *)
+  (* an event that is not half of a move: what it appends ([] for an unknown descriptor) carries its mask *)
   Lemma read_one_flat_kept t r r0 k acc acc0 e r1 k1 out :
     is_moved_from (k_mask e) = false -> is_moved_to (k_mask e) = false ->
     req r r0 -> flat_inv root r ->
     read_one C t (r, k, acc) e = Done (r1, k1, out) ->
-    exists r01 ev, r_mask ev = k_mask e /\ out = acc ++ [ev] /\ k1 = k /\
-      read_one C t (r0, k, acc0) e = Done (r01, k, acc0 ++ [ev]) /\ req r1 r01 /\ flat_inv root r1.
+    exists r01 o, Forall (fun ev => r_mask ev = k_mask e) o /\ out = acc ++ o /\ k1 = k /\
+      read_one C t (r0, k, acc0) e = Done (r01, k, acc0 ++ o) /\ req r1 r01 /\ flat_inv root r1.
   Proof.
-    intros H1 H2 R I H. rewrite read_one_nr in *. destruct R as [E1 [E2 E3]]. rewrite <- E2.
-    destruct (alookup N.eqb (k_wd e) (pfw r)) as [wdp|]; [|discriminate].
+    intros H1 H2 R I H. pose proof R as [E1 [E2 [E3 E4]]]. pose proof I as [_ [_ [_ I4]]].
+    rewrite read_one_nr in H by exact I4. rewrite read_one_nr by congruence. rewrite <- E2.
+    destruct (alookup N.eqb (k_wd e) (pfw r)) as [wdp|].
+    2:{ destruct (c_fix_moveout C); [|discriminate]. inversion H; subst.
+        exists r0, []. rewrite !app_nil_r.
+        split; [constructor|]. split; [reflexivity|]. split; [reflexivity|]. split; [reflexivity|]. split; assumption. }
     unfold ro_move in *. rewrite H1, H2 in *.
-    pose proof (ro_ignored_req r r0 e (conj E1 (conj E2 E3)) I) as HI.
+    pose proof (ro_ignored_req r r0 e R I) as HI.
     destruct (ro_ignored C r e) as [r2|s]; [|discriminate].
     destruct (ro_ignored C r0 e) as [r02|s]; [|contradiction].
     inversion H; subst. destruct HI as [R2 [I2 _]].
     eexists. eexists. split; [|split; [reflexivity|split; [reflexivity|split; [reflexivity|split; assumption]]]].
-    reflexivity.
+    repeat constructor.
   Qed.
 
   Lemma mvf_set c v (m : list (N * bytes)) c' p :
     alookup N.eqb c' (aset N.eqb c v m) = Some p -> p = v \/ alookup N.eqb c' m = Some p.
   Proof.
     destruct (N.eq_dec c' c) as [->|Hne].
-    - rewrite pset_eq. intros H. inversion H. now left.
-    - rewrite (pset_neq c c' v m Hne). now right.
+    - rewrite (al_set_eq N.eqb Neqb_iff). intros H. inversion H. now left.
+    - rewrite (al_set_neq N.eqb Neqb_iff c c' v m Hne). now right.
   Qed.
 
   (* a half of a move (or any other event without IN_IGNORED), as seen by the unfiltered reader *)
@@ -111,16 +159,21 @@ Section Flat.
     (is_moved_from (k_mask e) = true -> valid_name (k_name e) = true) ->
     flat_inv root r ->
     read_one C t (r, k, acc) e = Done (r1, k1, out) ->
-    exists ev, r_mask ev = k_mask e /\ out = acc ++ [ev] /\ k1 = k /\ req r1 r /\ flat_inv root r1.
+    exists o, Forall (fun ev => r_mask ev = k_mask e) o /\ out = acc ++ o /\ k1 = k /\ req r1 r /\ flat_inv root r1.
   Proof.
-    intros Hi Hname [I1 [I2 I3]] H. rewrite read_one_nr in H.
-    destruct (alookup N.eqb (k_wd e) (pfw r)) as [wdp|] eqn:Ew; [|discriminate].
+    intros Hi Hname [I1 [I2 [I3 I4]]] H. rewrite read_one_nr in H by exact I4.
+    destruct (alookup N.eqb (k_wd e) (pfw r)) as [wdp|] eqn:Ew.
+    2:{ destruct (c_fix_moveout C); [|discriminate]. inversion H; subst.
+        exists []. rewrite app_nil_r.
+        split; [constructor|]. split; [reflexivity|]. split; [reflexivity|].
+        split; [repeat split; reflexivity | repeat split; assumption]. }
     assert (Hwdp : wdp = root) by (apply (I2 _ _ Ew)). subst wdp.
     unfold ro_ignored in H. rewrite Hi in H.
     unfold ro_move in H.
     destruct (is_moved_from (k_mask e)) eqn:E1.
-    - inversion H; subst. eexists. split; [|split; [reflexivity|split; [reflexivity|]]]; [reflexivity|].
-      split; [repeat split; reflexivity|]. cbn [wfp pfw mvf]. split; [exact I1 | split; [exact I2|]].
+    - inversion H; subst. eexists. split; [|split; [reflexivity|split; [reflexivity|]]]; [repeat constructor|].
+      rewrite Hnr, andb_false_r. cbn [andb].
+      split; [repeat split; reflexivity|]. cbn [wfp pfw mvf pend]. split; [exact I1 | split; [exact I2|split; [|exact I4]]].
       intros c p Hc. apply mvf_set in Hc as [->|Hc]; [|apply (I3 c p Hc)].
       specialize (Hname eq_refl).
       change (match k_name e with [] => root | _ :: _ => join root (k_name e) end) with (rpath root (k_name e)).
@@ -132,13 +185,13 @@ Section Flat.
         rewrite Hnr in H. rewrite !andb_false_r in H. cbn [andb] in H.
         destruct (alookup N.eqb (k_cookie e) (mvf r)) as [msrc|] eqn:Em.
         * rewrite (Hnone msrc eq_refl) in H. inversion H; subst.
-          eexists. split; [|split; [reflexivity|split; [reflexivity|]]]; [reflexivity|].
+          eexists. split; [|split; [reflexivity|split; [reflexivity|]]]; [repeat constructor|].
           split; [repeat split; reflexivity | repeat split; assumption].
         * inversion H; subst.
-          eexists. split; [|split; [reflexivity|split; [reflexivity|]]]; [reflexivity|].
+          eexists. split; [|split; [reflexivity|split; [reflexivity|]]]; [repeat constructor|].
           split; [repeat split; reflexivity | repeat split; assumption].
       + inversion H; subst.
-        eexists. split; [|split; [reflexivity|split; [reflexivity|]]]; [reflexivity|].
+        eexists. split; [|split; [reflexivity|split; [reflexivity|]]]; [repeat constructor|].
         split; [repeat split; reflexivity | repeat split; assumption].
   Qed.
 
@@ -151,7 +204,7 @@ Section Flat.
       read_batch C t (r, k, acc) b = Done (r', k', out) ->
       exists r0',
         read_batch C t (r0, k, filter (fun x => keep (r_mask x)) acc) (filter (fun e => keep (k_mask e)) b)
-        = Done (r0', k', filter (fun x => keep (r_mask x)) out) /\ req r' r0' /\ flat_inv root r'.
+        = Done (r0', k', filter (fun x => keep (r_mask x)) out) /\ req r' r0' /\ flat_inv root r' /\ k' = k.
   Proof.
     intros Hign. induction b as [|e b IH]; intros r r0 k acc r' k' out Hnomove Hn R I Hrun.
     - cbn in *. inversion Hrun; subst. exists r0. repeat split; try apply R; apply I.
@@ -165,22 +218,38 @@ Section Flat.
       destruct (keep (k_mask e)) eqn:Hk.
       + destruct (Hnomove e (or_introl eq_refl) Hk) as [M1 M2].
         destruct (read_one_flat_kept t r r0 k acc (filter (fun x => keep (r_mask x)) acc) e r1 k1 out1 M1 M2 R I E1)
-          as [r01 [ev [Hm [-> [-> [E0 [R1 I1]]]]]]].
+          as [r01 [o [Ho [-> [-> [E0 [R1 I1]]]]]]].
         cbn [read_batch]. rewrite E0.
-        destruct (IH r1 r01 k (acc ++ [ev]) r' k' out Hnomove' Hn' R1 I1 Hrun) as [r0' [H1 [H2 H3]]].
+        destruct (IH r1 r01 k (acc ++ o) r' k' out Hnomove' Hn' R1 I1 Hrun) as [r0' [H1 [H2 H3]]].
         exists r0'. split; [|split; assumption].
-        rewrite filter_app in H1. cbn [filter] in H1. rewrite Hm, Hk in H1. exact H1.
+        rewrite filter_app in H1. rewrite (filter_all (fun x => keep (r_mask x)) o) in H1; [exact H1|].
+        intros x Hx. rewrite Forall_forall in Ho. now rewrite (Ho x Hx).
       + assert (Hi : Emitter.is_ignored (k_mask e) = false).
         { destruct (Emitter.is_ignored (k_mask e)) eqn:E; [|reflexivity]. rewrite (Hign _ E) in Hk. discriminate. }
         destruct (read_one_flat_dropped t r k acc e r1 k1 out1 Hi (Hn e (or_introl eq_refl)) I E1)
-          as [ev [Hm [-> [-> [R1 I1]]]]].
+          as [o [Ho [-> [-> [R1 I1]]]]].
         assert (R1' : req r1 r0).
-        { destruct R1 as [a [b0 c]], R as [a' [b' c']]. repeat split; congruence. }
-        destruct (IH r1 r0 k (acc ++ [ev]) r' k' out Hnomove' Hn' R1' I1 Hrun) as [r0' [H1 [H2 H3]]].
+        { destruct R1 as [a [b0 [c d]]], R as [a' [b' [c' d']]]. repeat split; congruence. }
+        destruct (IH r1 r0 k (acc ++ o) r' k' out Hnomove' Hn' R1' I1 Hrun) as [r0' [H1 [H2 H3]]].
         exists r0'. split; [|split; assumption].
-        rewrite filter_app in H1. cbn [filter] in H1. rewrite Hm, Hk, app_nil_r in H1. exact H1.
+        rewrite filter_app in H1. rewrite (filter_nil (fun x => keep (r_mask x)) o) in H1; [now rewrite app_nil_r in H1|].
+        intros x Hx. rewrite Forall_forall in Ho. now rewrite (Ho x Hx).
   Qed.
 End Flat.
+
+(* a non-recursive reader never remembers a candidate and never touches the kernel queue *)
+Lemma read_batch_nr_idle C (Hnr : c_recursive C = false) t b : forall r k acc r' k' out,
+  pend r = None -> read_batch C t (r, k, acc) b = Done (r', k', out) -> pend r' = None /\ k_queue k' = k_queue k.
+Proof.
+  induction b as [|e b IH]; intros r k acc r' k' out Hp H; cbn [read_batch] in H.
+  - inversion H; subst. split; [exact Hp | reflexivity].
+  - destruct (read_one C t (r, k, acc) e) as [[[r1 k1] a1]|] eqn:E1; [|discriminate].
+    rewrite (read_one_body_eq C t r k acc e Hp) in E1.
+    assert (Hp1 : pend r1 = None).
+    { destruct (read_one_body_pend C _ _ _ _ _ _ _ _ E1) as [E|E]; [congruence|].
+      unfold sets_pend in E. rewrite Hnr, andb_false_r in E. discriminate. }
+    apply read_one_body_queue in E1. destruct (IH _ _ _ _ _ _ Hp1 H) as [A B]. split; [exact A | congruence].
+Qed.
 
 (* ------------------------------------------------------------------ the names the kernel reports for moves *)
 (* the source of a rename has a proper base name (true of every path that does not end in "/") *)
@@ -246,12 +315,12 @@ Section FlatStep.
   Qed.
 
   Theorem transparent_step_flat full w k k' r r0 o w1 k1 r1 evs :
-    op_ok o -> kw0 WATCHDOG_ALL M' k k' -> req r r0 -> flat_inv root r ->
+    op_ok o -> kw0 WATCHDOG_ALL M' k k' -> k_queue k = [] -> k_queue k' = [] -> req r r0 -> flat_inv root r ->
     run_one None C full w k r o = Some (w1, k1, r1, evs) ->
     exists k1' r1', run_one F C' full w k' r0 o = Some (w1, k1', r1', filter (acc F) evs) /\
-                    kw0 WATCHDOG_ALL M' k1 k1' /\ req r1 r1' /\ flat_inv root r1.
+                    kw0 WATCHDOG_ALL M' k1 k1' /\ k_queue k1 = [] /\ k_queue k1' = [] /\ req r1 r1' /\ flat_inv root r1.
   Proof.
-    intros Hop [T [Q Q']] R I Hrun. unfold run_one in *.
+    intros Hop T Q Q' R I Hrun. unfold run_one in *.
     destruct (apply_op w o) as [w'|]; [|discriminate].
     set (kU := kernel_op k (w_fs w) o) in *. set (kF := kernel_op k' (w_fs w) o).
     assert (Q0 : kq M' k k') by (unfold kq; rewrite Q, Q'; reflexivity).
@@ -267,17 +336,20 @@ Section FlatStep.
     destruct (reader_transparent_flat C Hnr Hroot1 Hroot2 (w_fs w') (kkeep M')
                 (fun m Hm => ltac:(unfold kkeep; rewrite Hm; reflexivity))
                 (k_queue kU) r r0 (kdrained kU) [] r' kk raws
-                (fun e He Hk => kept_not_move _ (QS e He) Hk) QN R I Hrd) as [r0' [Hrt [R' I']]].
+                (fun e He Hk => kept_not_move _ (QS e He) Hk) QN R I Hrd) as [r0' [Hrt [R' [I' Hkk]]]].
     cbn [filter] in Hrt.
     assert (K0 : kw0 WATCHDOG_ALL M' (kdrained kU) (kdrained kF)).
-    { split; [|split; reflexivity]. destruct T1 as [a b c d]. constructor; assumption. }
+    { destruct T1 as [a b c d]. constructor; assumption. }
     pose proof (read_batch_twin C WATCHDOG_ALL M' HM (w_fs w')
                   (filter (fun e => kkeep M' (k_mask e)) (k_queue kU)) r0 (kdrained kU) (kdrained kF) [] K0) as Htw.
     rewrite Hrt in Htw. fold C' in Htw. rewrite Q1.
     destruct (read_batch C' (w_fs w') (r0, kdrained kF, []) (filter (fun e => kkeep M' (k_mask e)) (k_queue kU)))
-      as [[[r2 k2] raws2]|]; [|contradiction].
+      as [[[r2 k2] raws2]|] eqn:HrdF; [|contradiction].
     destruct Htw as [H1 [H2 H3]]. cbn [fst snd] in *. subst r2 raws2.
-    exists k2, r0'. split; [|split; [exact H3 | split; assumption]]. f_equal. f_equal.
+    assert (QF : k_queue k2 = []).
+    { assert (Hp0 : pend r0 = None) by (destruct R as [_ [_ [_ E]]], I as [_ [_ [_ E']]]; congruence).
+      destruct (read_batch_nr_idle C' Hnr _ _ _ _ _ _ _ _ Hp0 HrdF) as [_ E]. exact E. }
+    exists k2, r0'. split; [|split; [exact H3 | split; [subst kk; reflexivity | split; [exact QF | split; assumption]]]]. f_equal. f_equal.
     unfold C'. rewrite group_batch_with_mask. cbn [with_mask c_recursive c_root].
     assert (Hsh : Forall (fun x => kshaped (r_mask x)) raws).
     { destruct (read_batch_masks _ _ _ _ _ _ _ _ _ Hrd) as [new [E Hn]]. cbn [app] in E. subst new.
@@ -288,19 +360,19 @@ Section FlatStep.
 
   Theorem transparent_seq_flat full ops : Forall op_ok ops ->
     forall w k k' r r0 evs,
-      kw0 WATCHDOG_ALL M' k k' -> req r r0 -> flat_inv root r ->
+      kw0 WATCHDOG_ALL M' k k' -> k_queue k = [] -> k_queue k' = [] -> req r r0 -> flat_inv root r ->
       run_seq None C full w k r ops = Some evs ->
       run_seq F C' full w k' r0 ops = Some (filter (acc F) evs).
   Proof.
-    induction 1 as [|o ops Ho Hops IH]; intros w k k' r r0 evs K R I H; cbn [run_seq] in *.
+    induction 1 as [|o ops Ho Hops IH]; intros w k k' r r0 evs K Q Q' R I H; cbn [run_seq] in *.
     - inversion H; subst. reflexivity.
     - destruct (apply_op w o) eqn:Ea; [|eapply IH; eassumption].
       destruct (run_one None C full w k r o) as [[[[w1 k1] r1] e1]|] eqn:E1; [|discriminate].
-      destruct (transparent_step_flat full w k k' r r0 o w1 k1 r1 e1 Ho K R I E1) as [k1' [r1' [E2 [K1 [R1 I1]]]]].
+      destruct (transparent_step_flat full w k k' r r0 o w1 k1 r1 e1 Ho K Q Q' R I E1) as [k1' [r1' [E2 [K1 [Q1 [Q1' [R1 I1]]]]]]].
       rewrite E2.
       destruct (run_seq None C full w1 k1 r1 ops) as [e2|] eqn:E3; [|discriminate].
       cbn [option_map] in H. inversion H; subst evs.
-      rewrite (IH w1 k1 k1' r1 r1' e2 K1 R1 I1 E3). cbn [option_map]. now rewrite filter_app.
+      rewrite (IH w1 k1 k1' r1 r1' e2 K1 Q1 Q1' R1 I1 E3). cbn [option_map]. now rewrite filter_app.
   Qed.
 
   Lemma construct_flat t r k : construct C kinit t = Some (r, k) -> flat_inv root r.
@@ -308,11 +380,12 @@ Section FlatStep.
     unfold construct. rewrite Hnr. destruct (fisdir (c_root C) t); [|discriminate].
     unfold add_watch. destruct (mem_nat _ _); [discriminate|].
     destruct (kadd_watch kinit t (c_root C) (c_mask C)) as [[k1 wd]|]; [|discriminate].
-    intros H. inversion H; subst. cbn [rinit0 wfp pfw mvf aset]. unfold flat_inv. cbn [wfp pfw mvf alookup].
-    split; [|split].
+    intros H. inversion H; subst. cbn [rinit0 wfp pfw mvf aset]. unfold flat_inv. cbn [wfp pfw mvf pend alookup].
+    split; [|split; [|split]].
     - intros p wd0. destruct (beqb p (c_root C)) eqn:E; [|discriminate]. intros _. now apply beqb_eq.
     - intros wd0 p. destruct (N.eqb wd0 wd); [|discriminate]. intros Hp. now inversion Hp.
     - intros c p Hp. discriminate.
+    - reflexivity.
   Qed.
 
   Theorem transparent_from_flat full w ops evs : Forall op_ok ops ->
@@ -322,25 +395,124 @@ Section FlatStep.
     unfold run_from. intros Hops H.
     pose proof (construct_twin C WATCHDOG_ALL M' HM (w_fs w)) as T. fold C' in T.
     destruct (construct C kinit (w_fs w)) as [[r k]|] eqn:Ec; [|discriminate].
-    destruct (construct C' kinit (w_fs w)) as [[r' k']|]; [|contradiction].
+    destruct (construct C' kinit (w_fs w)) as [[r' k']|] eqn:Ec'; [|contradiction].
     destruct T as [<- K]. eapply transparent_seq_flat; try eassumption.
+    - eapply construct_queue. exact Ec.
+    - eapply construct_queue. exact Ec'.
     - repeat split; reflexivity.
     - eapply construct_flat. exact Ec.
   Qed.
 End FlatStep.
 
-(* ------------------------------------------------------------------ every filter, both kinds of watch *)
-Theorem transparent_from_all F C full :
-  c_mask C = WATCHDOG_ALL -> c_root C <> [] -> last_is_sep (c_root C) = false ->
-  forall w ops evs, Forall op_ok ops ->
+(* ------------------------------------------------------------------ a non-recursive watch is always regular *)
+Section NR.
+  Variable F : option (list evbase).
+  Variable C : cfg.
+  Hypothesis Hnr : c_recursive C = false.
+
+  Lemma guarded_nr keep b : guardedb C keep false b = true.
+  Proof.
+    induction b as [|e b IH]; [reflexivity|]. cbn [guardedb].
+    unfold sets_pend at 1. rewrite Hnr, andb_false_r. exact IH.
+  Qed.
+
+  Lemma regular_nr full ops : forall w k r,
+    pend r = None -> k_queue k = [] -> regular F C full w k r ops.
+  Proof.
+    induction ops as [|o ops IH]; intros w k r Hp Q; cbn [regular]; [exact I|].
+    destruct (apply_op w o) as [w'|] eqn:Ea; [|apply IH; assumption].
+    split.
+    - split; [rewrite Q; constructor|]. split; [apply kernel_op_nodup; exact Q|].
+      unfold pending_of. rewrite Hp, andb_false_r. apply guarded_nr.
+    - unfold run_one. rewrite Ea.
+      destruct (read_batch C (w_fs w') (r, kdrained (kernel_op k (w_fs w) o), []) (k_queue (kernel_op k (w_fs w) o)))
+        as [[[r1 k1] raws]|] eqn:Hrd; [|exact I].
+      destruct (read_batch_nr_idle C Hnr _ _ _ _ _ _ _ _ Hp Hrd) as [A B]. apply IH; assumption.
+  Qed.
+
+  Lemma regular_from_nr full w ops : regular_from F C full w ops.
+  Proof.
+    unfold regular_from. destruct (construct C kinit (w_fs w)) as [[r k]|] eqn:Ec; [|exact I].
+    apply regular_nr; [|eapply construct_queue; exact Ec].
+    revert Ec. unfold construct. rewrite Hnr. destruct (fisdir (c_root C) (w_fs w)); [|discriminate].
+    destruct (add_watch C rinit0 kinit (w_fs w) (c_root C)) as [[[r1 k1] wd]|] eqn:Ea; [|discriminate].
+    intros H. inversion H; subst. apply add_watch_pend in Ea. exact Ea.
+  Qed.
+End NR.
+
+(* ------------------------------------------------------------------ the pinned reader is always regular *)
+Section Pinned.
+  Variable F : option (list evbase).
+  Variable C : cfg.
+  Hypothesis Hoff : c_fix_moveout C = false.
+
+  Lemma read_batch_pinned_queue t b : forall r k acc r' k' out,
+    read_batch C t (r, k, acc) b = Done (r', k', out) -> k_queue k' = k_queue k.
+  Proof.
+    induction b as [|e b IH]; intros r k acc r' k' out H; cbn [read_batch] in H.
+    - inversion H; subst. reflexivity.
+    - destruct (read_one C t (r, k, acc) e) as [[[r1 k1] a1]|] eqn:E1; [|discriminate].
+      rewrite (read_one_body_off C t r k acc e Hoff) in E1. apply read_one_body_queue in E1.
+      rewrite (IH _ _ _ _ _ _ H). exact E1.
+  Qed.
+
+  Lemma regular_pinned full ops : forall w k r, k_queue k = [] -> regular F C full w k r ops.
+  Proof.
+    induction ops as [|o ops IH]; intros w k r Q; cbn [regular]; [exact I|].
+    destruct (apply_op w o) as [w'|] eqn:Ea; [|apply IH; assumption].
+    split.
+    - split; [rewrite Q; constructor|]. split; [apply kernel_op_nodup; exact Q|].
+      unfold pending_of. rewrite Hoff. cbn [andb]. apply guarded_pinned. exact Hoff.
+    - unfold run_one. rewrite Ea.
+      destruct (read_batch C (w_fs w') (r, kdrained (kernel_op k (w_fs w) o), []) (k_queue (kernel_op k (w_fs w) o)))
+        as [[[r1 k1] raws]|] eqn:Hrd; [|exact I].
+      apply IH. rewrite (read_batch_pinned_queue _ _ _ _ _ _ _ _ Hrd). reflexivity.
+  Qed.
+
+  Lemma regular_from_pinned full w ops : regular_from F C full w ops.
+  Proof.
+    unfold regular_from. destruct (construct C kinit (w_fs w)) as [[r k]|] eqn:Ec; [|exact I].
+    apply regular_pinned. eapply construct_queue. exact Ec.
+  Qed.
+End Pinned.
+
+(* ------------------------------------------------------------------ masks that contain IN_MOVE: no regularity needed *)
+(* [regular_from] is gone: the repaired reader of a recursive watch is handled by the lag bisimulation (C11LagProofs),
+   the pinned reader and the non-recursive watches are regular by construction. *)
+Theorem transparent_from_vis F C full :
+  c_mask C = WATCHDOG_ALL -> visible F (c_recursive C) ->
+  forall w ops evs,
+    (c_recursive C = true -> c_fix_moveout C = true -> tidy_from C full w ops) ->
     run_from None C full w ops = Some evs ->
     run_from F (with_mask C (kmask F (c_recursive C))) full w ops = Some (filter (acc F) evs).
 Proof.
-  intros HM R1 R2 w ops evs Hops H.
+  intros HM Hvis w ops evs Htidy H.
   destruct (c_recursive C) eqn:Hrec.
-  - rewrite <- Hrec. apply transparent_from; [exact HM | rewrite Hrec; apply visible_recursive | exact H].
+  - destruct (c_fix_moveout C) eqn:Hfix.
+    + rewrite <- Hrec. apply (lag_from F C HM); [rewrite Hrec; exact Hvis | exact Hfix | exact (Htidy eq_refl eq_refl) | exact H].
+    + rewrite <- Hrec. apply transparent_from; [exact HM | rewrite Hrec; exact Hvis | apply regular_from_pinned; exact Hfix | exact H].
+  - rewrite <- Hrec. apply transparent_from; [exact HM | rewrite Hrec; exact Hvis | apply regular_from_nr; exact Hrec | exact H].
+Qed.
+
+(* ------------------------------------------------------------------ every filter, both kinds of watch *)
+(* For a recursive watch with the repaired reader the UNFILTERED run has to be tidy at its drained points (C11LagProofs:
+   the reader's tables mention live kernel watches only - a filter-independent, executable well-formedness condition; it
+   is what C02's cover invariant gives at synced states).  Nothing is asked of non-recursive watches or of the pinned
+   reader. *)
+Theorem transparent_from_all F C full :
+  c_mask C = WATCHDOG_ALL -> c_root C <> [] -> last_is_sep (c_root C) = false ->
+  forall w ops evs, Forall op_ok ops ->
+    (c_recursive C = true -> c_fix_moveout C = true -> tidy_from C full w ops) ->
+    run_from None C full w ops = Some evs ->
+    run_from F (with_mask C (kmask F (c_recursive C))) full w ops = Some (filter (acc F) evs).
+Proof.
+  intros HM R1 R2 w ops evs Hops Htidy H.
+  destruct (c_recursive C) eqn:Hrec.
+  - destruct (c_fix_moveout C) eqn:Hfix.
+    + rewrite <- Hrec. apply (lag_from F C HM); [rewrite Hrec; apply visible_recursive | exact Hfix | exact (Htidy eq_refl eq_refl) | exact H].
+    + rewrite <- Hrec. apply transparent_from; [exact HM | rewrite Hrec; apply visible_recursive | apply regular_from_pinned; exact Hfix | exact H].
   - destruct (flag_in IN_MOVED_FROM (kmask F false)) eqn:Hmv.
-    + rewrite <- Hrec. apply transparent_from; [exact HM | | exact H].
+    + rewrite <- Hrec. apply transparent_from; [exact HM | | apply regular_from_nr; exact Hrec | exact H].
       rewrite Hrec. split; [exact Hmv | discriminate].
     + rewrite <- Hrec. apply transparent_from_flat; try assumption. rewrite Hrec. exact Hmv.
 Qed.
